@@ -147,6 +147,7 @@ type tup struct {
 	// followed by Fields2. Trailing empties trimmed for the Fields path.
 	eff    []string
 	f2path bool
+	full   string // reference untrimmed encoding of all nf Fields (plain specs)
 }
 
 type pfx struct {
@@ -154,6 +155,7 @@ type pfx struct {
 	key    string // ixkey.CompKey(p...)  (trimmed, as a target index key would be)
 	end    string // db19.rangeEnd(key, n)
 	lo, hi string // JoinPrefixSuffix(key, n, ""), (key, n, Max)
+	untr   string // reference untrimmed encoding of p
 }
 
 // strs returns all byte strings over bs of length 0..maxlen, shortest first.
@@ -209,16 +211,23 @@ func families() []*family {
 		{name: "u1+2-len1-b5", nf: 1, nf2: 2, alpha: strs(b5, 1), helpers: true},
 		{name: "u2+2-len1-b3", nf: 2, nf2: 2, alpha: strs(b3, 1), helpers: true},
 		{name: "u1+1-len2-b3", nf: 1, nf2: 1, alpha: strs(b3, 2), helpers: true},
+		{name: "u3+1-len1-b3", nf: 3, nf2: 1, alpha: strs(b3, 1), helpers: true},
 		{name: "lower10", nf: 2, lower: []bool{true, false}, alpha: lowerAlpha},
 		{name: "lower11", nf: 2, lower: []bool{true, true}, alpha: lowerAlpha},
 		{name: "lower01", nf: 2, lower: []bool{false, true}, alpha: lowerAlpha},
 		{name: "lower1", nf: 1, lower: []bool{true}, alpha: lowerAlpha},
 		{name: "lower1+u1", nf: 1, nf2: 1, lower: []bool{true}, alpha: lowerAlpha[:12]},
-		// thorough tier: longer fields / more bytes
-		{name: "2f-len2-b7", nf: 2, alpha: strs(b7, 2), helpers: true, thor: true},
-		{name: "3f-len2-b3", nf: 3, alpha: strs(b3, 2), helpers: true, thor: true},
-		{name: "2f-len3-b3", nf: 2, alpha: strs(b3, 3), helpers: true, thor: true},
-		{name: "u2+1-len2-b3", nf: 2, nf2: 1, alpha: strs(b3, 2), helpers: true, thor: true},
+		// longer fields / more bytes
+		{name: "2f-len2-b7", nf: 2, alpha: strs(b7, 2), helpers: true},
+		{name: "3f-len2-b3", nf: 3, alpha: strs(b3, 2), helpers: true},
+		{name: "2f-len3-b3", nf: 2, alpha: strs(b3, 3), helpers: true},
+		{name: "u2+1-len2-b3", nf: 2, nf2: 1, alpha: strs(b3, 2), helpers: true},
+		// thorough tier
+		{name: "4f-len1-b5", nf: 4, alpha: strs(b5, 1), helpers: true, thor: true},
+		{name: "5f-len1-b3", nf: 5, alpha: strs(b3, 1), helpers: true, thor: true},
+		{name: "u2+2-len1-b5", nf: 2, nf2: 2, alpha: strs(b5, 1), helpers: true, thor: true},
+		{name: "2f-len3-b5", nf: 2, alpha: strs(b5, 3), helpers: true, thor: true},
+		{name: "3f-len2-b5", nf: 3, alpha: strs(b5, 2), helpers: true, thor: true},
 	}
 }
 
@@ -280,13 +289,20 @@ func (fm *family) build() {
 			e = trim(e)
 		}
 		tp.eff = e
+		if !tp.f2path {
+			full := make([]string, fm.nf)
+			for i := range full {
+				full[i] = fld(e, i)
+			}
+			tp.full = encUntrimmed(full)
+		}
 		fm.tuples = append(fm.tuples, tp)
 	}
 	if fm.helpers {
 		fm.prefixes = make([][]pfx, fm.nf+1)
 		for k := 1; k <= fm.nf; k++ {
 			for _, p := range allTuples(fm.alpha, k) {
-				x := pfx{p: p, key: ixkey.CompKey(p...)}
+				x := pfx{p: p, key: ixkey.CompKey(p...), untr: encUntrimmed(p)}
 				x.end = db19.VerifRangeEnd(x.key, k)
 				x.lo = ixkey.JoinPrefixSuffix(x.key, k, "")
 				x.hi = ixkey.JoinPrefixSuffix(x.key, k, ixkey.Max)
@@ -549,12 +565,8 @@ func (fm *family) checkHelpersP(c *lib.Ctx, tp *tup, n int, p *pfx, st *hstats) 
 	}
 	if !tp.f2path {
 		// untrimmed encodings: exactly "leading n fields equal"
-		full := make([]string, fm.nf)
-		for i := range full {
-			full[i] = fld(lt, i)
-		}
-		if g := ixkey.HasPrefix(encUntrimmed(full), encUntrimmed(p.p)); g != want {
-			fail("HasPrefix(untrimmed %q, untrimmed %q) = %v", encUntrimmed(full), encUntrimmed(p.p), g)
+		if g := ixkey.HasPrefix(tp.full, p.untr); g != want {
+			fail("HasPrefix(untrimmed %q, untrimmed %q) = %v", tp.full, p.untr, g)
 		}
 	}
 	st.evals += 5
